@@ -139,6 +139,33 @@ func (k c03) Run(c *rt.Ctx) {
 			stmt.HasLim, stmt.Start, stmt.Count = true, r.Intn(3), r.Range(1, 9)
 		}
 		query = stmt.Text(gen.Plain)
+	} else if c.Case%24 == 17 {
+		// BETWEEN bounds that coincide, as constants or on some pairs only: a run-time error in
+		// both modes or in neither
+		c.Rec.Inc("between_with_coinciding_bounds")
+		var ps []refstore.Pair
+		for i, n := 0, r.Range(3, 40); i < n; i++ {
+			ps = append(ps, refstore.Pair{K: fmt.Sprintf("k%02d", i), V: fmt.Sprint(r.Range(1, 5))})
+		}
+		st = &gen.Store{Family: "bounds", Pairs: refstore.New(ps).Pairs()}
+		iv := func() *gen.Node { return gen.Call("int", gen.Value()) }
+		b := int64(r.Range(1, 5))
+		var bt *gen.Node
+		switch r.Intn(4) {
+		case 0:
+			bt = gen.Between(iv(), gen.Int(b), gen.Int(b))
+		case 1:
+			bt = gen.Between(gen.Value(), gen.Str(fmt.Sprint(b)), gen.Str(fmt.Sprint(b)))
+		case 2:
+			bt = gen.Between(iv(), iv(), gen.Int(b))
+		default:
+			bt = gen.Between(iv(), gen.Int(b), gen.Bin("+", iv(), gen.Int(1)))
+		}
+		stmt = &gen.Stmt{Kind: "select", Where: gen.And(gen.Bin("^=", gen.Key(), gen.Str("k")), bt), Fields: []gen.Field{{E: gen.Key()}, {E: gen.Value()}}}
+		if r.Chance(1, 3) {
+			stmt.Where = bt
+		}
+		query = stmt.Text(gen.Plain)
 	} else if c.Case%24 == 11 {
 		// documents between values that are no documents: a member read belongs to its own pair
 		c.Rec.Inc("json_members_between_non_documents")
